@@ -730,8 +730,14 @@ func CheckC07(sp Spec, o Obs) []Finding {
 				add(keyFor("double-reply"), "request %q: the handler wrote %d elements, %d went out", id, len(wrote), len(wire))
 			}
 		case badFrom:
+			// the sender's address does not parse: no reply can be addressed to it, the
+			// stream is terminated instead
 			if len(w) == 0 && o.Ret.Code == 0 {
 				add(keyFor("unanswered"), "request %q from unparsable %q: no reply and Serve returned nil", id, from)
+			}
+			if len(w) > 0 {
+				to, _ := w[0][0].AttrVal("to")
+				add(keyFor("reply-unaddressed"), "request %q named its sender %q, which is not a valid address: a reply went out addressed to %q and the stream was not terminated by it (Serve returned %v)", id, from, to, o.Ret)
 			}
 		case len(w) == 0:
 			add(keyFor("unanswered"), "request %q (type %s): no reply went out; segment %q; Serve returned %v", id, attrOr(el.Start, "type"), o.Out[v.OutOff:end], o.Ret)
